@@ -68,6 +68,10 @@ def _eq_axioms(ct) -> List[Any]:
             if ct.is_sub(n1, "Schema") or ct.is_sub(n1, "Props") or n1 == "optional":
                 if ct.is_sub(n2, "Schema") or ct.is_sub(n2, "Props") or n2 == "optional":
                     ax.append(M.subcls(i1, i2) == z3.BoolVal(ct.is_sub(n1, n2)))
+    # a subclass of a schema class is a schema class (closed world of the class table, as for isinstance)
+    i, k = z3.Ints("sci sck")
+    ax.append(z3.ForAll([i, k], z3.Implies(z3.And(M.subcls(i, k), ct.sub_formula(k, "Schema")), ct.sub_formula(i, "Schema")),
+                        patterns=[M.subcls(i, k)]))
     return ax
 
 
